@@ -21,7 +21,10 @@ EXPLANATION = (
     'the WS MessageTooLarge arm sends reject_too_big_request(<request limit>) and reaches no dispatch before the next '
     'receive. R6 every ordering comparison against a value originating from max_request_body_size anywhere in '
     'server/core keeps the limit inclusive (size > limit refuses, size <= limit admits); CFG the configured value '
-    "reaches ServerConfig verbatim and no builder step rebuilds the config from defaults. NOT decided: soketto's / "
+    "reaches ServerConfig verbatim and no builder step rebuilds the config from defaults. R8 the buffer handed to "
+    "soketto Receiver::receive is a new empty Vec at every call (soketto appends fragments before it refuses an "
+    "oversize message); R2 also requires every other Limited::new in server/core to take its cap from the request "
+    "limit (no second fixed cap). NOT decided: soketto's / "
     "hyper's own enforcement and boundary arithmetic inside them; behaviour for concrete sizes."
 )
 RULE_TEXT = (
@@ -95,6 +98,13 @@ def r2_http_limit(ctx):
         params = [l for l in leaves if l.kind == "param" and l.detail["fn"] == "jsonrpsee_core::http_helpers::read_body"]
         R.check(bool(params), "C07.R2", "read_body:limit-is-param", "Limited::new's limit is read_body's max_body_size parameter", "Limited::new's limit does not originate from read_body's limit parameter", where(c))
         _report_leaves(R, "C07.R2", "read_body:limit-origin", "HTTP body limit (Limited::new)", where(c), leaves)
+    # no other body-size cap exists on the request path: every Limited::new in the server/core crates takes its limit from
+    # the request limit (a second, fixed cap makes the effective limit min(configured, cap) for one way of assembling the server)
+    for c in F.all_calls(r"^http_body_util::Limited::<.*>::new$"):
+        if c.body.path == rb.path or c.body.crate not in (SERVER, CORE) or is_test_body(c.body):
+            continue
+        R.fn(c.body)
+        _report_leaves(R, "C07.R2", "%s:extra-body-cap" % fkey(c.body), "additional HTTP body cap (Limited::new) outside read_body", where(c), tr.origins(c.body, c.args[1]))
     # every server-crate caller of read_body / call_with_service passes the request limit
     n = 0
     for pat, argi, label in (
@@ -330,7 +340,34 @@ def rin_inbound_limits_from_request_limit(ctx):
     soketto_inbound_limits(ctx, "C07.INBOUND")
 
 
-RULES = [r1_ws_frame_limit, r2_http_limit, r3_plumbing, r4_limit_before_read, r5_ws_oversize_arm, r6_size_gates, r7_server_builder_fields, rsib_entry_points_agree, rcfg_config_verbatim, rstatus_http_status_table, rin_inbound_limits_from_request_limit]
+def r8_ws_receive_buffer_fresh(ctx):
+    """soketto appends every fragment to the caller's buffer *before* it knows that the message is over the limit, so
+    the buffer handed to Receiver::receive must be empty at every call: otherwise the fragments of a refused message
+    become the prefix of the next one (which is then parsed and dispatched, or fails to parse)."""
+    F, R = ctx.F, ctx.R
+    tr = ctx.tracer()
+    sites = [c for c in F.all_calls(r"^soketto::Receiver::<.*>::receive(_data)?$|^soketto::connection::Receiver::<.*>::receive(_data)?$") if c.body.crate == SERVER and not is_test_body(c.body)]
+    R.floor("C07.R8", len(sites), 1, "soketto Receiver::receive sites in the server crate")
+    FRESH = re.compile(r"^(alloc|std)::vec::Vec::<.*>::(new|with_capacity)$|^<(alloc|std)::vec::Vec<.*> as (std|core)::default::Default>::default$")
+    for c in sites:
+        b = c.body
+        R.fn(b)
+        leaves = tr.origins(b, c.args[1])
+        stale = [l for l in leaves if not (l.kind == "call" and l.where == b.path and FRESH.search(l.detail.get("callee") or ""))]
+        if stale:
+            # accepted alternative: the buffer is emptied on every path to the receive
+            pl = op_place(c.args[1])
+            holders = flow_forward(b, pl["l"]) if pl else set()
+            clears = [k for k in b.calls_to(r"^(alloc|std)::vec::Vec::<.*>::clear$") if b.dominates(k.bb, c.bb) and k.bb != c.bb]
+            if clears:
+                stale = []
+        R.check(not stale, "C07.R8", fkey(b) + ":fresh-buffer",
+                "the buffer handed to soketto Receiver::receive is a new empty Vec at every call",
+                "the buffer handed to soketto Receiver::receive is carried over from an earlier iteration (%s): soketto appends the fragments of a message before it finds it over max_request_body_size, so the bytes of a refused message are glued in front of the next message, which is then dispatched or rejected with the wrong content" % [flow.leaf_str(l) for l in stale][:4],
+                where(c), {"origins": [flow.leaf_str(l) for l in leaves][:6]})
+
+
+RULES = [r8_ws_receive_buffer_fresh, r1_ws_frame_limit, r2_http_limit, r3_plumbing, r4_limit_before_read, r5_ws_oversize_arm, r6_size_gates, r7_server_builder_fields, rsib_entry_points_agree, rcfg_config_verbatim, rstatus_http_status_table, rin_inbound_limits_from_request_limit]
 
 LEVEL_TEXT = (
     "Structural necessary conditions decided exactly from the type-checked program: which configuration field every "
